@@ -390,8 +390,15 @@ func gen1(t *rapid.T) Case {
 	}
 	if c.Pipe && rapid.IntRange(0, 3).Draw(t, "nonblock") == 2 {
 		c.NonblockStdin = true
+		// at least three writes with a pause between them: moments in which a read finds the pipe empty
+		if c.Len < 30 {
+			c.Len = 30 + c.Len*50
+		}
+		if len(c.Chunks) == 0 || c.Chunks[0] >= c.Len/2 {
+			c.Chunks = []int{c.Len/3 + 1}
+		}
 		if c.PauseUs == 0 {
-			c.PauseUs = 500
+			c.PauseUs = 1000
 		}
 	}
 	return c
